@@ -60,8 +60,14 @@ def translator_order(F):
     out = {}
     recs = TR.rec_calls(fn)
     pushes = TR.pushes(fn)
+    from .. import variants as _variants
     for v in F.variants(BET):
         arm = TR.arm_blocks(fn, BET, v)
+        # arms merged with an or-pattern dispatch on the operator a second time further in: of the merged arm only what is
+        # reachable with every switch on the operator taking this operator's edge belongs to it
+        a0 = TR.arms(fn, BET).get(v)
+        if a0:
+            arm = arm & _variants.reach_multi(F, fn, [e for sb, e in a0], {BET: v})
         rc = [c for c in recs if c["bb"] in arm and c["callee"] == "translate_expr"]
         rc = sorted(rc, key=lambda c: TR.order_key(fn).get(c["bb"], 0))
         sides = []
